@@ -4,7 +4,7 @@
 #include <stdio.h>
 #include <string.h>
 #include "vf_std.h"
-#include "low_decls.h"
+#include "low.h"
 
 static unsigned char outbuf[8 << 20];
 
